@@ -54,6 +54,7 @@ from psyclone.psyir.nodes.codeblock import CodeBlock
 from psyclone.psyir.nodes.directive import (StandaloneDirective,
                                             RegionDirective)
 from psyclone.psyir.nodes.intrinsic_call import IntrinsicCall
+from psyclone.psyir.nodes.loop import Loop
 from psyclone.psyir.nodes.psy_data_node import PSyDataNode
 from psyclone.psyir.nodes.routine import Routine
 from psyclone.psyir.nodes.schedule import Schedule
@@ -533,6 +534,37 @@ class ACCLoopDirective(ACCRegionDirective):
                 f"ACCParallelDirective or ACCKernelsDirective as an ancestor "
                 f"in the Schedule or the routine must contain an "
                 f"ACCRoutineDirective.")
+
+        # The directive must be applied to a single loop.
+        if (len(self.dir_body.children) != 1 or
+                not isinstance(self.dir_body.children[0], Loop)):
+            raise GenerationError(
+                f"ACCLoopDirective must have exactly one Loop as the child "
+                f"of its associated schedule but found "
+                f"{[type(child).__name__ for child in self.dir_body.children]}"
+                f".")
+
+        # If there is a collapse clause, there must be as many tightly
+        # nested loops (no intervening statements) as the collapse value.
+        if self._collapse:
+            cursor = self.dir_body.children[0]
+            for depth in range(self._collapse):
+                if (len(cursor.parent.children) != 1 or
+                        not isinstance(cursor, Loop)):
+                    raise GenerationError(
+                        f"ACCLoopDirective must have as many immediately "
+                        f"nested loops as the collapse clause specifies but "
+                        f"'{self}' has a collapse={self._collapse} and the "
+                        f"nested body at depth {depth} cannot be collapsed.")
+                if depth + 1 < self._collapse:
+                    if not cursor.loop_body.children:
+                        raise GenerationError(
+                            f"ACCLoopDirective must have as many immediately "
+                            f"nested loops as the collapse clause specifies "
+                            f"but '{self}' has a collapse={self._collapse} "
+                            f"and the loop at depth {depth} has an empty "
+                            f"body.")
+                    cursor = cursor.loop_body.children[0]
 
         super().validate_global_constraints()
 
